@@ -209,6 +209,7 @@ RETAIN = [{}, {"retain_names": False}, {"retain_coefficients": True, "retain_nam
 
 def render_and_check(R, sp, label, cfgs, sign_pairs, tags):
     m = model_of(sp)
+    tiny = any(0 < abs(complex(x)) < 1e-6 for c_ in m.t.values() for x in c_.ravel().tolist())
     for ci, cfg in enumerate(cfgs):
         for si, signs in enumerate(sign_pairs):
             if signs[1] == " " and m.shape != ():
@@ -221,8 +222,22 @@ def render_and_check(R, sp, label, cfgs, sign_pairs, tags):
                 p = build_checked(sp)
                 tg = tags + [f"display_graded={cfg[0]}", f"display_reverse={cfg[1]}", f"display_inverse={cfg[2]}", f"signs={signs}"] + [f"{k_}={v_}" for k_, v_ in retain.items()]
                 with numpoly.global_options(**retain):
+                    def suppressed_str(x):
+                        with numpy.printoptions(suppress=True):
+                            return str(x)
+
+                    def precise_repr(x):
+                        with numpy.printoptions(precision=12, floatmode="maxprec"):
+                            return repr(x)
                     for op, f, is_repr in (("str", str, False), ("repr", repr, True), ("array_str", numpoly.array_str, False),
-                                           ("numpy.array_repr", numpy.array_repr, True)):
+                                           ("numpy.array_repr", numpy.array_repr, True),
+                                           # small-number suppression drops coefficients below 1e-8 only: nothing here is that small
+                                           ("array_str(suppress_small=True)", lambda x: numpoly.array_str(x, suppress_small=True), False),
+                                           ("array_repr(suppress_small=True)", lambda x: numpoly.array_repr(x, suppress_small=True), True),
+                                           ("str under printoptions(suppress=True)", suppressed_str, False),
+                                           ("repr under printoptions(precision=12)", precise_repr, True)):
+                        if "suppress" in op and tiny:
+                            continue     # coefficients below 1e-8 are what suppression is meant to drop
                         try:
                             text = f(p)
                         except Exception as err:  # noqa: BLE001
